@@ -238,6 +238,20 @@ func runC06(c *vf.Case) {
 		}
 	}
 	events, ctrlBetween := wsFragment(r, msgs, 6, 35)
+	if r.Chance(1, 8) && maxSize >= 4096 {
+		// a frame that fills the 4096-byte read buffer of a fresh stream to its last byte (4-byte header + 4092 payload
+		// bytes), unfragmented, between small messages: with the frame-boundary segmentation it arrives alone
+		msgs = nil
+		for i := 0; i < r.Intn(3); i++ {
+			msgs = append(msgs, wsMsg{Text: true, Payload: asciiBytes(r, r.Intn(30))})
+		}
+		msgs = append(msgs, wsMsg{Text: r.Bool(), Payload: asciiBytes(r, 4092)})
+		for i := 0; i < r.Range(1, 2); i++ {
+			msgs = append(msgs, wsMsg{Text: true, Payload: asciiBytes(r, r.Intn(30))})
+		}
+		events, ctrlBetween = wsFragment(r, msgs, 1, 0)
+		c.Count("streams_with_a_frame_that_fills_the_read_buffer_exactly", 1)
+	}
 	wire, bounds := wsWire(events)
 	frags := 0
 	lens := map[string]bool{}
@@ -297,6 +311,16 @@ func runC06(c *vf.Case) {
 			c.Count("streams_read", 1)
 		}
 	}
+	if !c.Failed() && len(bounds) > 1 {
+		// every frame arrives in a transport read of its own (cuts exactly at the frame boundaries): a frame can then fill
+		// the read buffer to its last byte with nothing behind it
+		fb := append([]int(nil), bounds[:len(bounds)-1]...)
+		for _, api := range c06APIs {
+			c06Run(c, msgs, events, wire, fb, api, maxSize, r.Bool(), "cut-at-every-frame-boundary")
+			c.Count("streams_read", 1)
+		}
+		segClass += "+frame-boundaries"
+	}
 	if !c.Failed() && len(wire) <= 3000 && r.Chance(1, 2) {
 		cuts := make([]int, 0, len(wire))
 		for i := 1; i < len(wire); i++ {
@@ -333,7 +357,7 @@ func init() {
 	register(&vf.Check{
 		ID:        "C06",
 		Technique: "differential runtime monitor: a real Stream on a scripted transport (hook VerifAttach) reads wsref-generated fragmented/interleaved/segmented streams through all four read APIs; every delivery compared with the generated message list",
-		Rule: "cases = 1-12 messages (text/binary, sizes {0,1,125,126,127,500,4090-4099,65535,65536,max,random<=max}) x random fragmentation (1-6 fragments, empty ones included) x ping/pong (0-125 bytes) between fragments x segmentation (EVERY cut offset for streams <= 400 bytes, else 1-3 random cuts plus one inside a header; coalesced; byte-at-a-time) x {NextFrame, AsyncNextFrame, NextMessage, AsyncNextMessage} x inline/deferred transport completions; SetMaxMessageSize raised at random points while an asynchronous read is parked; " +
+		Rule: "cases = 1-12 messages (text/binary, sizes {0,1,125,126,127,500,4090-4099,65535,65536,max,random<=max}) x random fragmentation (1-6 fragments, empty ones included) x ping/pong (0-125 bytes) between fragments x segmentation (EVERY cut offset for streams <= 400 bytes, else 1-3 random cuts plus one inside a header; coalesced; cut at every frame boundary; byte-at-a-time) x {NextFrame, AsyncNextFrame, NextMessage, AsyncNextMessage} x inline/deferred transport completions; SetMaxMessageSize raised at random points while an asynchronous read is parked; " +
 			"non-trivial = a control frame between fragments or a cut inside a frame header; distinct = (frame length classes, fragments, controls between fragments, segmentation class, max)",
 		Assumptions: []string{
 			"text payloads are ASCII (UTF-8 validation is optional and off by default)",
